@@ -394,7 +394,12 @@ impl<const BITS: usize, const LIMBS: usize> Uint<BITS, LIMBS> {
             r.limbs[LIMBS - 1 - i - limbs] = (x >> bits) | carry;
             carry = (x << (word_bits - bits - 1)) << 1;
         }
-        (r, carry != 0)
+        // Bits are also lost in the low limbs that are dropped whole.
+        let mut overflow = carry != 0;
+        for i in 0..limbs {
+            overflow |= self.limbs[i] != 0;
+        }
+        (r, overflow)
     }
 
     /// Right shift by `rhs` bits.
